@@ -1,7 +1,7 @@
 (* C05 — Validator updates keep Tendermint's set equal to the staked set. Statements only. *)
 From Coq Require Import List ZArith NArith Bool.
 From PM Require Import Base.Bytes Store.KV Store.MergeProofs Num.IntModel Num.DecModel Num.DecProofs
-  App.Model App.BankProofs App.TxProofs App.KeyProofs App.IndexProofs App.TombProofs App.Examples App.Invariants.
+  App.Model App.BankProofs App.TxProofs App.KeyProofs App.IndexProofs App.PoolProofs App.UpdateProofs App.TombProofs App.Examples App.Invariants.
 Import ListNotations.
 Local Open Scope Z_scope.
 
@@ -24,6 +24,13 @@ Theorem C05_index_entries_are_staked_unjailed_all_histories ops s s' k a :
   idx_sound s -> run ops s = Some s' -> aget (powidx s') k = Some a ->
   exists v, get_val s' a = Some v /\ v_status v = 2%N /\ v_jailed v = false /\ k = rank_key (v_tokens v) a.
 Proof. intros H E. exact (indexed_is_staked_unjailed s' k a (run_is ops s s' H E)). Qed.
+(* the batch returned by EndBlock / InitChain can always be applied to the set the module has told Tendermint
+   so far (prevpow): no address twice, no negative power, a removal only of an address that set contains; and the
+   module's record afterwards is that set with the batch applied *)
+Theorem C05_updates_always_applicable s s' ups : idx_sound s -> (forall a v, get_val s a = Some v -> 0 <= v_tokens v) ->
+  dsorted true (prevpow s) -> update_tm_validators s = Some (s', ups) ->
+  applicable (prevpow s) ups /\ prevpow s' = apply_updates ups (prevpow s) /\ dsorted true (prevpow s').
+Proof. exact (updates_applicable s s' ups). Qed.
 Theorem C05_genesis_index_sound s0 gvals dao s ups :
   idx_sound s0 -> NoDup (map g_addr gvals) -> (forall g, In g gvals -> aget (vals s0) (g_addr g) = None) ->
   init_chain s0 gvals dao = Some (s, ups) -> idx_sound s.
@@ -33,3 +40,4 @@ Proof. vm_compute. split; reflexivity. Qed.
 Print Assumptions C05_rank_key_order.
 Print Assumptions C05_rank_key_injective.
 Print Assumptions C05_index_entries_are_staked_unjailed_all_histories.
+Print Assumptions C05_updates_always_applicable.
